@@ -3,6 +3,7 @@ package formats
 import (
 	"bufio"
 	"encoding/json"
+	"errors"
 	"fmt"
 	"io"
 	"os"
@@ -92,6 +93,14 @@ func (fs *Sniffer) SniffReader(f io.ReadSeeker) (Format, error) {
 				return "", fmt.Errorf("unknown SBOM format")
 			}
 		}
+	}
+
+	// The data is JSON but the declaration cannot be read from it (an array
+	// or a scalar at the top level, a declaration member that is not a
+	// string): no format is declared, don't mistake it for a text format.
+	var typeErr *json.UnmarshalTypeError
+	if errors.As(err, &typeErr) {
+		return "", fmt.Errorf("unknown SBOM format")
 	}
 
 	// not JSON.  Parse line-by-line with string hacks
